@@ -77,7 +77,7 @@ PLAN = {
                             'were measured to cost CBMC > 30 GB, so index arguments are selected concrete values, not all values. The growth path (cap, fallible_reserve_internal, reserve_internal(_or_error), '
                             'amortized_new_size, current_layout, dealloc_buffer: capacity promise, doubling, overflow refused, Err leaves vector AND buffer untouched) and the '
                             'swap-only dedup loop are proved unbounded by Verus.'),
-    'C14': dict(v=['strbounds', 'strretain'], level='model_checking',
+    'C14': dict(v=['strbounds', 'strretain', 'strops'], level='model_checking',
                 k_quick=['k_lossy_chunk_3', 'k_width_table', 'k_str_insert_mid', 'k_str_truncate_split', 'k_str_drain', 'k_str_insert_non_boundary'],
                 k_thorough=['k_lossy_chunk_2', 'k_lossy_chunk_4', 'k_str_insert_ends', 'k_str_remove', 'k_str_lossy_truncated', 'k_str_truncate_non_boundary',
                             'k_str_split_off_non_boundary', 'k_str_remove_past_end'],
